@@ -16,8 +16,16 @@ CFG = "INIT Init\nNEXT Next\nINVARIANT SameEvent\nCHECK_DEADLOCK FALSE\n"
 REC = os.path.join(os.path.dirname(os.path.dirname(os.path.abspath(__file__))), "det_record.py")
 
 
+AGAIN = "same-process-second-run"
+
+
 def run_seed(seed, inp_path, out_path):
-    env = dict(os.environ, PYTHONHASHSEED=str(seed))
+    if seed == AGAIN:
+        # not another hash seed but another RUN: every graph is restructured twice in one process from the same block objects and the
+        # second run is the one recorded
+        env = dict(os.environ, PYTHONHASHSEED="0", VERIF_DET_AGAIN="1")
+    else:
+        env = dict(os.environ, PYTHONHASHSEED=str(seed))
     r = subprocess.run([sys.executable, REC, inp_path, out_path], env=env, capture_output=True, text=True, timeout=3000)
     if r.returncode != 0:
         raise tlc.MachineryError("det_record failed (seed %s): %s" % (seed, r.stderr[-2000:]))
@@ -28,7 +36,7 @@ def main(argv):
     rep = Report(PROP, args.tier, args.seed, "other")
     quick = args.tier == "quick"
     K = 4 if quick else 16
-    seeds = [0] + [1000 * (args.seed + 1) + 17 * k for k in range(1, K)]
+    seeds = [0] + [1000 * (args.seed + 1) + 17 * k for k in range(1, K)] + [AGAIN]
     if args.replay:
         with open(args.replay) as f:
             inputs = [json.load(f)["input"]["id"]]
@@ -105,7 +113,8 @@ def main(argv):
                        "TLC walks every other run in lockstep with the reference run (Determinism.tla) and fails at the first event that differs. Events are rendered "
                        "with dictionary insertion order, target order, tables and counters explicit, so a name or order difference is visible." % len(seeds),
         "states": states, "transitions": gen, "traces_validated_against_impl": len(inputs) * len(seeds), "evaluations": len(inputs) * len(seeds),
-        "distinct_nontrivial": nontrivial, "events_compared": nevents * (len(seeds) - 1), "hash_seeds": seeds,
+        "distinct_nontrivial": nontrivial, "events_compared": nevents * (len(seeds) - 1), "hash_seeds": [s for s in seeds if s != AGAIN],
+        "same_process_second_run": "one more run per input in which the graph is restructured twice in one process from the same block objects (domains X, R, K); the second run is compared with the reference like the runs under other hash seeds",
         "rule": "non-trivial = an input whose behaviour has more than 12 events (restructuring did real work)",
         "samples": inputs[:2] + inputs[-2:],
     })
